@@ -3,7 +3,7 @@ import LunarVerif.Model.C15Tree
 import LunarVerif.Spec.C15
 /-! Driver for C15: `lvdriver_c15 run` (model answers) / `lvdriver_c15 judge` (Spec on the implementation's answers).
 
-ops:  cfg thr=<n> | known u=<enc> | rec ts= dur= tot= st= m= u= i= c= int= | run cuts=<i,j,..|-> restarts=<i,..|->
+ops:  cfg thr=<n> | known u=<enc> | rec ts= dur= tot= st= m= u= i= c= int= | run cuts=<i,j,..|-> restarts=<i,..|-> [faildumps=<i,..|->]
 answer of `run`:  full=<0|1> fail=<k> avg=ok  ep <key> <count> <minS> <maxS> <st> ...  ce <tag> <key> ... it <type> <ver> <tsS> ...
 -/
 open LunarVerif LunarVerif.Proto LunarVerif.C15
@@ -24,16 +24,19 @@ def parseRec (ws : List String) : Option Rec := do
   pure { ts := ts, dur := dur, tot := tot, status := st, method := pctDec m, url := pctDec u,
          interceptor := pctDec i, consumer := pctDec c, internal := int != 0 }
 
-/-- cut the stream into batches / restarts; `cuts` non-decreasing positions in 0..n -/
-def segsOf (recs : List Rec) (cuts restarts : List Nat) : List Seg :=
-  let rec go (prev : Nat) (cuts restarts : List Nat) : List Seg :=
+/-- cut the stream into batches / restarts; `cuts` non-decreasing positions in 0..n; the flush of the batch that
+    ends at a position listed in `faildumps` fails -/
+def segsOf (recs : List Rec) (cuts restarts faildumps : List Nat) : List Seg :=
+  let rec go (prev : Nat) (cuts restarts faildumps : List Nat) : List Seg :=
     match cuts with
     | [] => [Seg.batch (recs.drop prev)]
     | c :: cs =>
-      let b := Seg.batch ((recs.drop prev).take (c - prev))
-      if restarts.contains c then b :: Seg.restart :: go c cs (restarts.erase c)
-      else b :: go c cs restarts
-  go 0 cuts restarts
+      let rs := (recs.drop prev).take (c - prev)
+      let b := if faildumps.contains c then Seg.batchNoDump rs else Seg.batch rs
+      let fd := faildumps.erase c
+      if restarts.contains c then b :: Seg.restart :: go c cs (restarts.erase c) fd
+      else b :: go c cs restarts fd
+  go 0 cuts restarts faildumps
 
 def sortS (l : List String) : List String := l.mergeSort (fun a b => decide (a ≤ b))
 
@@ -73,6 +76,10 @@ def runThreaded (t0 : Tree) (segs : List Seg) : Persisted × Bool :=
       if rs.isEmpty then s else
       let (t, a) := stepT s.1.1 s.1.2 rs
       ((t, a), persist a)
+    | Seg.batchNoDump rs =>
+      if rs.isEmpty then s else
+      let (t, a) := stepT s.1.1 s.1.2 rs
+      ((t, a), s.2)
     | Seg.restart => (({ t0 with nondet := s.1.1.nondet }, restore s.2), s.2))
     ((t0, ({} : Agg)), persist {})
   (r.2, r.1.1.nondet)
@@ -93,6 +100,10 @@ def runPure (t0 : Tree) (segs : List Seg) : Persisted × List String :=
       let urls := (external rs).map (·.url)
       let bad := if rs.isEmpty then [] else lawCheck s.1.tree s.2.1 urls
       (stepS treeNormaliser s.1 rs, s.2.1 ++ urls, s.2.2 ++ bad)
+    | Seg.batchNoDump rs =>
+      let urls := (external rs).map (·.url)
+      let bad := if rs.isEmpty then [] else lawCheck s.1.tree s.2.1 urls
+      (stepNoDump treeNormaliser s.1 rs, s.2.1 ++ urls, s.2.2 ++ bad)
     | Seg.restart => ({ tree := t0, agg := restore s.1.file, file := s.1.file }, [], s.2.2)) (St.init t0, [], [])
   -- L2 (observational): the lineage tree and the one-shot tree normalise every seen URL alike
   let l2 := match r.2.1 with
@@ -118,13 +129,14 @@ def runStep (s : RunSt) (line : String) : RunSt × String :=
     | some r => ({ s with recs := r :: s.recs }, "ok")
     | none => (s, "bad-op")
   | "run" :: ws =>
-    match (kv ws "cuts").bind parseList, (kv ws "restarts").bind parseList with
-    | some cuts, some restarts =>
+    match (kv ws "cuts").bind parseList, (kv ws "restarts").bind parseList,
+          ((kv ws "faildumps").getD "-" |> parseList) with
+    | some cuts, some restarts, some faildumps =>
       match buildTree s.thr s.known with
       | none => (s, "err:build")
       | some t0 =>
         let recs := s.recs.reverse
-        let segs := segsOf recs cuts restarts
+        let segs := segsOf recs cuts restarts faildumps
         let full := restarts.isEmpty
         let (file, nondet) := runThreaded t0 segs
         let (filep, laws) := runPure t0 segs
@@ -133,12 +145,12 @@ def runStep (s : RunSt) (line : String) : RunSt × String :=
         let pure := fmtObs full 0 filep ""
         -- the law / purity diagnostics are part of the answer only OUTSIDE the class where the laws are known
         -- to fail on the real tree (finding F15c); there the harness never prints them, so they show as a diff
-        let inClass := deepFanout s.thr (s.known ++ (external recs).map (·.url))
+        let inClass := deepFanout s.thr s.known ((external recs).map (·.url))
         let tail := if inClass then "" else (if main == pure then "" else " PURE-DIFF") ++
           (if laws.isEmpty then "" else " LAW-FAIL:" ++ ",".intercalate (dedupS laws))
         -- with restarts only the per-method totals are reported; those never depend on map order
         (s, if nondet && full then "nondet" else main ++ tail)
-    | _, _ => (s, "bad-op")
+    | _, _, _ => (s, "bad-op")
   | _ => (s, "bad-op")
 
 /-! ### judge -/
